@@ -4,8 +4,10 @@
 //! Real OS threads, one baton, every scheduling decision drawn from a seeded PRNG and
 //! recorded, virtual discrete-event clock. See /verif/DESIGN.md section 3.
 
+pub mod atomic;
 pub mod collections;
 pub mod exec;
+pub mod mpsc;
 mod pool;
 pub mod prng;
 pub mod sync;
